@@ -139,8 +139,9 @@ def load(reg):
     reg.contract("DistGamma.__init__", params=GINIT,
                  raises=[("TypeError", "not instance(stream, 'StreamInterface') or not isnum(shape) or not isnum(scale)"),
                          ("ValueError", "instance(stream, 'StreamInterface') and isnum(shape) and isnum(scale)"
-                                        " and (num(shape) <= 0 or num(scale) <= 0)")],
-                 requires=["not isref(shape) and not isref(scale)", "not isnum(shape) or isfin(shape)", "not isnum(scale) or isfin(scale)"],
+                                        " and (isnan(num(shape)) or isnan(num(scale)) or val(num(shape)) <= 0 or val(num(scale)) <= 0)")],
+                 requires=["not isref(shape) and not isref(scale)", "not isnum(shape) or isfin(shape) or isnan(num(shape))",
+                           "not isnum(scale) or isfin(scale) or isnan(num(scale))"],
                  on_raise="any",
                  ensures=["self._stream == %s" % NEWS, "self._shape == val(num(shape))", "self._scale == val(num(scale))",
                           "self._shape > 0 and self._scale > 0"],
@@ -179,3 +180,75 @@ _load_d0 = load
 def load(reg):      # noqa: F811
     _load_d0(reg)
     load_setter(reg)
+
+
+_load_d1 = load
+
+
+def load(reg):      # noqa: F811
+    _load_d1(reg)
+    load_constructors(reg)
+
+
+def load_constructors(reg):
+    """Parameter validation at construction (C14: 'parameters outside the documented domain are rejected at construction,
+    and every parameter set inside it yields a usable distribution'): for the distributions that are not compositions of
+    gammas, the constructor raises TypeError exactly for ill-typed arguments, ValueError exactly for well-typed arguments
+    outside the domain, and otherwise establishes the parameter invariant that the class's draw() contract requires.
+    Scope (precondition): numeric parameters are plain numbers (not Quantity instances), not infinite; NaN is admitted for
+    every parameter with a documented bound and must be rejected (fix 184bf62); parameters without a bound (mu, constant)
+    are finite."""
+    C14 = ["C14"]
+    NEWS = "asref(stream, 'StreamInterface')"
+    TY = {"float": "isfloat(%s)", "num": "isnum(%s)", "int": "isint(%s)"}
+    N = lambda p: "val(num(%s))" % p
+    I = lambda p: "ival(%s)" % p
+    # class -> (parameters [(name, kind)], domain over the parameters, [(field, value)], parameter invariant of draw())
+    T = {
+        "DistBernoulli": ([("p", "float")], "0 <= %s and %s <= 1" % (N("p"), N("p")), [("_p", N("p"))], "0 <= self._p and self._p <= 1"),
+        "DistBinomial": ([("n", "int"), ("p", "float")], "0 <= %s and %s <= 1 and %s > 0" % (N("p"), N("p"), I("n")),
+                         [("_p", N("p")), ("_n", I("n"))], "0 <= self._p and self._p <= 1 and self._n > 0"),
+        "DistDiscreteUniform": ([("lo", "int"), ("hi", "int")], "%s < %s" % (I("lo"), I("hi")), [("_lo", I("lo")), ("_hi", I("hi"))],
+                                "self._lo <= self._hi"),
+        "DistConstant": ([("constant", "num")], "True", [("_constant", N("constant"))], "True"),
+        "DistExponential": ([("mean", "num")], "%s > 0" % N("mean"), [("_mean", N("mean"))], "self._mean > 0"),
+        "DistPoisson": ([("rate", "num")], "%s > 0" % N("rate"), [("_rate", N("rate"))], "self._rate > 0 and self._expl > 0 and self._expl < 1"),
+        "DistTriangular": ([("lo", "num"), ("mode", "num"), ("hi", "num")],
+                           "%s <= %s and %s <= %s and %s != %s" % (N("lo"), N("mode"), N("mode"), N("hi"), N("lo"), N("hi")),
+                           [("_lo", N("lo")), ("_mode", N("mode")), ("_hi", N("hi"))],
+                           "self._lo <= self._mode and self._mode <= self._hi and self._lo < self._hi"),
+        "DistUniform": ([("lo", "num"), ("hi", "num")], "%s < %s" % (N("lo"), N("hi")), [("_lo", N("lo")), ("_hi", N("hi"))],
+                        "self._lo < self._hi"),
+        "DistWeibull": ([("alpha", "num"), ("beta", "num")], "%s > 0 and %s > 0" % (N("alpha"), N("beta")),
+                        [("_alpha", N("alpha")), ("_beta", N("beta"))], "self._alpha > 0 and self._beta > 0"),
+        "DistNormal": ([("mu", "num"), ("sigma", "num")], "%s > 0" % N("sigma"), [("_mu", N("mu")), ("_sigma", N("sigma"))],
+                       "self._sigma > 0 and not self._have_saved_gaussian"),
+    }
+    simple = list(T)
+    c = reg.contracts["Distribution._set_stream"]
+    c.for_classes = list(dict.fromkeys((c.for_classes or []) + [k for k in simple if k != "DistNormal"]))
+    for cls, (params, domain, fields, inv) in T.items():
+        names = [p for p, _ in params]
+        types_ok = " and ".join(TY[k] % p for p, k in params)
+        unbounded = {"DistNormal": ["mu"], "DistConstant": ["constant"]}.get(cls, [])
+        plain = ["not isref(%s)" % p for p in names] + \
+                ["not isnum(%s) or isfin(%s)%s" % (p, p, "" if p in unbounded else " or isnan(num(%s))" % p) for p in names]
+        notnan = " and ".join("not isnan(num(%s))" % p for p, k in params if k != "int" and p not in unbounded) or "True"
+        domain = "(%s) and (%s)" % (notnan, domain)
+        reg.contract("%s.__init__" % cls, params=dict({"stream": "obj"}, **{p: "obj" for p in names}),
+                     requires=plain,
+                     raises=[("TypeError", "not instance(stream, 'StreamInterface') or not (%s)" % types_ok),
+                             ("ValueError", "instance(stream, 'StreamInterface') and (%s) and not (%s)" % (types_ok, domain))],
+                     on_raise="any",
+                     ensures=["self._stream == %s" % NEWS] + ["self.%s == %s" % (f, v) for f, v in fields] + [inv],
+                     modifies=["self.*"], for_classes=[cls] + (["DistLogNormal"] if cls == "DistNormal" else []),
+                     props=C14)
+
+    # NaN is outside every documented domain but passes guards of the form `x <= 0` (a comparison with NaN is false):
+    # witness of the known finding, evaluated natively
+    def nan_witness(table):
+        from pyvc.ground import run_native
+        res = run_native({"function": "DistExponential.__init__", "obligation": "witness-nan-parameters", "property": "C14"})
+        return [("every distribution rejects a NaN parameter at construction", not res.get("reproduced"),
+                 res.get("observed") or res.get("note"))]
+    reg.ground_obligation("witness: NaN parameters pass the domain guards of the constructors", C14, nan_witness)
